@@ -31,6 +31,7 @@ def sparse_uw(n, m, w=None, multi=False):
         r'IntVector::with_len$': M,
         r'Vec::<u64>::extend_with$': 4,
         r'RawVector::count_ones$': 4,
+        r'stubs_bv::(enable|enabled)$': 26, r'stubs_bv::words_of$': 4,
     }
 
 
